@@ -120,6 +120,11 @@ uint64_t PrimeSieve::nthPrime(int64_t n, uint64_t start)
 uint64_t PrimeSieve::negativeNthPrime(int64_t n, uint64_t start)
 {
   ASSERT(n < 0);
+
+  // -n overflows (undefined behavior) for n = INT64_MIN
+  if (n < -(int64_t) max_n)
+    throw primesieve_error("nth_prime(n): abs(n) must be <= " + std::to_string(max_n));
+
   n = -n;
 
   if ((uint64_t) n >= start)
